@@ -1,5 +1,5 @@
 """C07 — load balancing: one branch per frame, ordered duplicate-free rejoin."""
-from .. import protocol
+from .. import protocol, pipeline
 
 ID = 'C07'
 MODULES = ['OFModel.Zmq.Receiver', 'OFModel.Zmq.Sender', 'OFModel.Gen.Facts']
@@ -14,3 +14,4 @@ def run(ctx):
     n = 8000 if ctx.thorough else (3000 if ctx.escalate else 700)
     protocol.recv_campaign(ctx, 'C07', n, ['bal'])
     protocol.send_campaign(ctx, 'C07', n, ['bal', 'bal', 'adv'])
+    if not ctx.replay: pipeline.campaign_balance(ctx, 200 if ctx.thorough else 25)
